@@ -210,7 +210,7 @@ def run(tier, seed, log):
            "judge_states": 0, "drift": 0, "samples": []}
 
     # --- 1. the intended design, model-checked -------------------------------------------------
-    ids_a = [1, 2, 1]
+    ids_a = [0, 2, 0]            # two objects share an id; the shared id is 0 (falsy ids must work like any other)
     # the design model check and the repository's tests run beside the exploration of the real objects
     import threading
     side = {}
@@ -220,10 +220,10 @@ def run(tier, seed, log):
     th_rt.start()
     # --- 2. the real objects, explored with the same alphabet ----------------------------------
     configs = [dict(name="A", ids=ids_a, W=2, L=2, level=3, prune=True, light=(tier == "quick"))]
-    ids_b = [1, 2, 3]
+    ids_b = [0, -1, 5]
     configs.append(dict(name="B", ids=ids_b, W=1, alphabet=ordering_alphabet(3, 1, ids_b), prune=True))
     if tier == "thorough":
-        configs.append(dict(name="C", ids=[1, 2, 1, 3], W=2, L=2, level=2, prune=True, max_levels=4,
+        configs.append(dict(name="C", ids=[0, 2, 0, -3], W=2, L=2, level=2, prune=True, max_levels=4,
                             frontier_cap=600))
     impl_a = None
     for cfg in configs:
@@ -272,9 +272,9 @@ def run(tier, seed, log):
 
     # --- 4. long random histories over larger universes ----------------------------------------
     if True:
-        plans = [([1, 2, 3, 1, 2, 4], 3, 150 if tier == "quick" else 1500, 40)]
+        plans = [([0, 2, 3, 0, 2, -4], 3, 150 if tier == "quick" else 1500, 40)]
         if tier == "thorough":
-            plans.append(([1, 2, 3, 4, 5, 1, 2, 6], 3, 600, 60))
+            plans.append(([0, 2, 3, 4, -5, 0, 2, 6], 3, 600, 60))
         for ids, W, count, depth in plans:
             r = random_histories(ids, W, count, depth, seed + 17, log)
             cov["events"] += r["events"]
